@@ -677,7 +677,7 @@ def mixed_stream(ctx, nitems=None, kinds=None, adversarial=False):
     data = b""
     frames = []
     desc = []
-    kinds = kinds or ["rtcm", "rtcm", "rtcm", "nmea", "ubx", "noise", "zero", "one", "unk", "max"]
+    kinds = kinds or ["rtcm", "rtcm", "rtcm", "nmea", "ubx", "noise", "zero", "one", "unk", "max", "lensp"]
     for _ in range(nitems):
         k = rng.choice(kinds)
         if k == "rtcm":
@@ -686,6 +686,12 @@ def mixed_stream(ctx, nitems=None, kinds=None, adversarial=False):
             frames.append(hx(f))
         elif k == "unk":
             f = frame(gens.unknown_payload(rng, ctx.t))
+            data += f
+            frames.append(hx(f))
+        elif k == "lensp":
+            # payload lengths whose length byte is itself a sync / line character (0xD3, '$', 0xB5, 'b', LF, CR) or a
+            # power-of-two boundary
+            f = frame(gens.unknown_payload(rng, ctx.t, rng.choice([0xD3, 0x24, 0xB5, 0x62, 10, 13, 255, 256, 257, 512, 768, 1022])))
             data += f
             frames.append(hx(f))
         elif k == "max":
@@ -844,6 +850,12 @@ def cases_C08(ctx):
     for f in frames[:ctx.n(40, 300)]:
         g = f[:-3] + bytes(rng.getrandbits(8) for _ in range(3))
         cs.append(case("parse 0 1 " + hx(g), "noval", ("parse_same", {"other_line": "parse 1 1 " + hx(f), "what": "with validation off the checksum bytes influence the result", "expect_ok": False})))
+    # `validate` is a bit mask: VALCKSUM is bit 0, so 3 validates like 1 and 2 does not validate like 0
+    for f in frames[:ctx.n(20, 100)]:
+        d, kind = gens.damage(rng, f)
+        cs.append(case("parse 3 1 " + hx(d), "dmg:v3", ("parse_err", {"kind": kind + " (validate=3)"})))
+        g = f[:-3] + bytes(b ^ 0xA5 for b in f[-3:])
+        cs.append(case("parse 2 1 " + hx(g), "noval:v2", ("parse_same", {"other_line": "parse 1 1 " + hx(f), "what": "validate=2 (checksum bit clear) must not validate", "expect_ok": False})))
     return cs
 
 
